@@ -19,6 +19,8 @@ enum SpanOp {
     Negate,
     Abs,
     Mul(i64),
+    /// multiply by the largest factor that still fits every unit, plus a small delta
+    MulFit(i8, bool),
 }
 
 #[derive(Serialize, Deserialize, Debug, Clone)]
@@ -92,6 +94,42 @@ fn test_span_history(h: &SpanHistory, cx: &mut Cx) -> CaseResult {
                 if v.unsigned_abs() as u128 >= lim as u128 - (lim > 1) as u128 {
                     limit_vals += 1;
                 }
+                // the panicking setters and the ToSpan constructors hold/refuse the same integers
+                {
+                    use jiff::ToSpan;
+                    use std::panic::AssertUnwindSafe;
+                    let (s0, v0) = (s, *v);
+                    let infallible = crate::engine::guard("op", AssertUnwindSafe(|| match u {
+                        0 => s0.years(v0),
+                        1 => s0.months(v0),
+                        2 => s0.weeks(v0),
+                        3 => s0.days(v0),
+                        4 => s0.hours(v0),
+                        5 => s0.minutes(v0),
+                        6 => s0.seconds(v0),
+                        7 => s0.milliseconds(v0),
+                        8 => s0.microseconds(v0),
+                        _ => s0.nanoseconds(v0),
+                    }))
+                    .ok();
+                    let fresh = crate::engine::guard("op", AssertUnwindSafe(|| match u {
+                        0 => v0.years(),
+                        1 => v0.months(),
+                        2 => v0.weeks(),
+                        3 => v0.days(),
+                        4 => v0.hours(),
+                        5 => v0.minutes(),
+                        6 => v0.seconds(),
+                        7 => v0.milliseconds(),
+                        8 => v0.microseconds(),
+                        _ => v0.nanoseconds(),
+                    }))
+                    .ok();
+                    let tried = set_unit(s, u, *v).ok();
+                    ensure!(infallible.map(|x| getters(&x)) == tried.map(|x| getters(&x)), "span-setter-forms-differ", "{ctx}: the panicking setter gives {infallible:?}, the try-setter {tried:?}");
+                    let fresh_want = set_unit(Span::new(), u, *v).ok();
+                    ensure!(fresh.map(|x| getters(&x)) == fresh_want.map(|x| getters(&x)), "span-setter-forms-differ", "{ctx}: ToSpan gives {fresh:?}, Span::new().try-setter {fresh_want:?}");
+                }
                 match set_unit(s, u, *v) {
                     Ok(ns) => {
                         ensure!(ok, "span-setter-accepts-over-limit", "{ctx}: try-setter accepted {v} for unit {u} (limit {lim})");
@@ -126,7 +164,17 @@ fn test_span_history(h: &SpanHistory, cx: &mut Cx) -> CaseResult {
                 s = s.abs();
                 m.sign = m.sign.abs();
             }
-            SpanOp::Mul(k) => {
+            SpanOp::Mul(_) | SpanOp::MulFit(..) => {
+                let k_eff: i64 = match op {
+                    SpanOp::Mul(k) => *k,
+                    SpanOp::MulFit(d, neg) => {
+                        let fit = (0..10).filter(|&i| m.mag[i] != 0).map(|i| SPAN_LIMITS[i] / m.mag[i]).min().unwrap_or(3);
+                        let k = fit.saturating_add(*d as i64);
+                        if *neg { -k } else { k }
+                    }
+                    _ => unreachable!(),
+                };
+                let k = &k_eff;
                 let mut nm = m.clone();
                 let mut overflow = false;
                 for i in 0..10 {
@@ -197,6 +245,7 @@ fn strat_span_history() -> BoxedStrategy<SpanHistory> {
         1 => Just(SpanOp::Negate),
         1 => Just(SpanOp::Abs),
         2 => prop_oneof![Just(0i64), Just(1), Just(-1), Just(2), Just(-2), -1000i64..=1000, gen::biased(i64::MIN, i64::MAX)].prop_map(SpanOp::Mul),
+        1 => (prop_oneof![3 => -2i8..=2, 1 => any::<i8>()], any::<bool>()).prop_map(|(d, n)| SpanOp::MulFit(d, n)),
     ];
     proptest::collection::vec(op, 1..10).prop_map(|ops| SpanHistory { ops }).boxed()
 }
@@ -429,6 +478,45 @@ fn test_sd(c: &SdCase, cx: &mut Cx) -> CaseResult {
         let r = a.div_duration_f64(b);
         let want = an as f64 / bn as f64;
         ensure!((r - want).abs() <= want.abs() * 1e-14 + 1e-300, "div_duration_f64", "{ctx}: div_duration_f64 = {r:e} want ~{want:e}");
+        let r = a.div_duration_f32(b) as f64;
+        ensure!((r - want).abs() <= want.abs() * 1e-6 + 1e-30, "div_duration_f32", "{ctx}: div_duration_f32 = {r:e} want ~{want:e}");
+    }
+    // the remaining float views (stated tolerance: a few units in the last place of the
+    // float type: 1e-15 relative for f64, 5e-7 relative for f32)
+    let f = a.as_secs_f32() as f64;
+    ensure!((f - exact).abs() <= exact.abs() * 5e-7 + 1e-30, "as_secs_f32", "{ctx}: as_secs_f32 = {f:e} want ~{exact:e}");
+    let exact_ms = an as f64 / 1e6;
+    let f = a.as_millis_f64();
+    ensure!((f - exact_ms).abs() <= exact_ms.abs() * 1e-15 + 1e-300, "as_millis_f64", "{ctx}: as_millis_f64 = {f:e} want ~{exact_ms:e}");
+    let f = a.as_millis_f32() as f64;
+    ensure!((f - exact_ms).abs() <= exact_ms.abs() * 5e-7 + 1e-30, "as_millis_f32", "{ctx}: as_millis_f32 = {f:e} want ~{exact_ms:e}");
+    // float scaling by the dyadic rational k/16 (exactly representable in f32 and f64 for
+    // |k| < 2^24): the true product/quotient is an exact rational; documented to panic
+    // only when the result is not finite or overflows
+    if c.k != 0 && c.k.unsigned_abs() < (1 << 24) {
+        use std::panic::AssertUnwindSafe;
+        let quiet = |f: &mut dyn FnMut() -> SignedDuration| -> Option<SignedDuration> { crate::engine::guard("op", AssertUnwindSafe(|| f())).ok() };
+        let r64 = c.k as f64 / 16.0;
+        let r32 = c.k as f32 / 16.0;
+        let prod = an * c.k as i128 / 16; // truncated; off by < 1ns
+        let quot = an * 16 / c.k as i128;
+        let safe = |v: i128| v.abs() < SD_MAX / 2;
+        let rows: [(&str, i128, f64, i128, Option<SignedDuration>); 4] = [
+            ("mul_f64", prod, 1e-15, 3, quiet(&mut || a.mul_f64(r64))),
+            ("div_f64", quot, 1e-15, 3, quiet(&mut || a.div_f64(r64))),
+            ("mul_f32", prod, 1e-6, 200, quiet(&mut || a.mul_f32(r32))),
+            ("div_f32", quot, 1e-6, 200, quiet(&mut || a.div_f32(r32))),
+        ];
+        for (name, want, rel, abs, got) in rows {
+            match got {
+                Some(v) => {
+                    invariant(v, name)?;
+                    let tol = (want.abs() as f64 * rel) as i128 + abs;
+                    ensure!((v.as_nanos() - want).abs() <= tol, format!("float-scale-wrong:{name}"), "{ctx}: {name}({}/16) = {v:?} ({}ns), exact value {want}ns (tolerance {tol}ns)", c.k, v.as_nanos());
+                }
+                None => ensure!(!safe(want), format!("float-scale-panics-in-range:{name}"), "{ctx}: {name}({}/16) panics although the exact value {want}ns is far inside the range", c.k),
+            }
+        }
     }
     Ok(())
 }
@@ -528,6 +616,16 @@ fn test_float(c: &FloatCase, cx: &mut Cx) -> CaseResult {
     check_float("try_from_secs_f64", x, 1, SignedDuration::try_from_secs_f64(x), cx)?;
     let y = f32::from_bits(c.f32bits);
     check_float("try_from_secs_f32", y as f64, 64, SignedDuration::try_from_secs_f32(y), cx)?;
+    // the panicking constructors are the try_ forms plus a documented panic
+    {
+        use std::panic::AssertUnwindSafe;
+        let p64 = crate::engine::guard("op", AssertUnwindSafe(|| SignedDuration::from_secs_f64(x))).ok();
+        let t64 = SignedDuration::try_from_secs_f64(x).ok();
+        ensure!(p64.map(|d| d.as_nanos()) == t64.map(|d| d.as_nanos()), "from_secs_f64-differs-from-try", "from_secs_f64({x:e}) = {p64:?} but try_from_secs_f64 = {t64:?}");
+        let p32 = crate::engine::guard("op", AssertUnwindSafe(|| SignedDuration::from_secs_f32(y))).ok();
+        let t32 = SignedDuration::try_from_secs_f32(y).ok();
+        ensure!(p32.map(|d| d.as_nanos()) == t32.map(|d| d.as_nanos()), "from_secs_f32-differs-from-try", "from_secs_f32({y:e}) = {p32:?} but try_from_secs_f32 = {t32:?}");
+    }
     Ok(())
 }
 
